@@ -186,9 +186,11 @@ class Repo:
                 if isinstance(st, ast.Try):
                     for h in st.handlers:
                         h.body = process(m, h.body)
-                if isinstance(st, (ast.Assign, ast.AnnAssign, ast.AugAssign, ast.Expr, ast.Return)) and getattr(st, "value", None) is not None:
+                fld_ = "iter" if isinstance(st, ast.For) else "value"
+                if isinstance(st, (ast.Assign, ast.AnnAssign, ast.AugAssign, ast.Expr, ast.Return, ast.For)) and getattr(st, fld_, None) is not None:
                     found: list[ast.Call] = []
-                    unconditional_calls(m, st.value, found, True)
+                    # the walker walks a helper called as the whole value of an assignment / expression statement / return itself
+                    unconditional_calls(m, getattr(st, fld_), found, not isinstance(st, (ast.For, ast.AugAssign)))
                     for k, call in enumerate(found):
                         tmp = f"__h{getattr(st, 'lineno', 0)}_{k}__"
                         res.append(ast.copy_location(ast.Assign([ast.Name(tmp, ast.Store())], call), st))
@@ -199,7 +201,7 @@ class Repo:
                                     return ast.copy_location(ast.Name(tmp, ast.Load()), n)
                                 return self.generic_visit(n)
 
-                        st.value = Rep().visit(st.value)
+                        setattr(st, fld_, Rep().visit(getattr(st, fld_)))
                         count += 1
                 res.append(st)
             return res
